@@ -3,6 +3,12 @@ from vlib import crypt_grid as K, xai, common
 m,info=common.prog('shared')
 cells,meta,rows=K.build_cells(m,'quick')
 cells=[c for c in cells if c['id']==sys.argv[1]]
+import os
+if os.environ.get("ALIGN"):
+    a=int(os.environ["ALIGN"])
+    for c in cells:
+        for r in c["roots"]:
+            if r["name"]=="align": r["lo"]=r["hi"]=a
 cfg=K.config(m); cfg['maxPaths']=int(sys.argv[2]) if len(sys.argv)>2 else 300
 if len(sys.argv)>3: cfg['maxSteps']=int(sys.argv[3])
 t=time.time()
